@@ -278,6 +278,32 @@ pub fn run(ctx: &Ctx) -> CheckResult {
         res.extra.insert("long_prefix_family_configs".into(), json!(big.len()));
         res.absorb(merge_jobs(outs));
     }
+    // lifecycle state graph: Reset checked in EVERY reachable state (fixpoint where the graph is finite)
+    if !res.out.failed() {
+        let (o, grows) = super::graph::run_all(ctx, PROP, super::graph::Fork::Reset, if th { &[1, 2, 3, 4, 5] } else { &[1, 2, 3, 4] }, &[1, 2], if th { 150_000 } else { 5_000 }, if th { 16 } else { 10 });
+        let fixpoints = grows.iter().filter(|r| r["fixpoint"] == true).count();
+        // stateright cross-check of the finite lifecycle graphs (independent checker, same model)
+        let mut xrows = vec![];
+        if !o.failed() {
+            use crate::subjects::Kind;
+            for n in 1..=(if th { 4 } else { 3 }) {
+                for k in [Kind::Sma, Kind::Wma, Kind::Mad, Kind::Max, Kind::FastStoch, Kind::Er, Kind::Roc] {
+                    let cfg = Cfg::p1(k, n);
+                    let mine = grows.iter().find(|r| r["subject"] == cfg.descr()).map(|r| (r["states"].as_u64().unwrap_or(0), r["fixpoint"] == true));
+                    if let Some((states, true)) = mine {
+                        let x = crate::xcheck::run_lifecycle(&cfg, &super::graph::exact_alphabet(k), ctx.threads);
+                        xrows.push(json!({"subject": cfg.descr(), "stateright_unique_states": x.unique_states, "seqmc_states": states, "discoveries": x.discoveries}));
+                        res.require(x.unique_states as u64 == states, &format!("{}: stateright found {} lifecycle states, seqmc {}", cfg.descr(), x.unique_states, states));
+                        res.require(x.discoveries == 0, &format!("{}: stateright reports reset() not reaching the fresh state although seqmc found no violation", cfg.descr()));
+                    }
+                }
+            }
+        }
+        res.extra.insert("stateright_crosscheck".into(), json!(xrows));
+        res.extra.insert("lifecycle_graph".into(), json!(grows));
+        res.extra.insert("lifecycle_graph_fixpoints".into(), json!(fixpoints));
+        res.absorb(o);
+    }
     res.extra.insert("post_reset_states".into(), json!(rows));
     res.extra.insert("max_distinct_post_reset_states".into(), json!(max_keys));
     res.rule = "case = (configuration, prefix history incl. NaN/inf/extreme values and resets, reset(), continuation): every continuation of length max(n+2,4) over finite values + NaN + inf compared step by step (1e-12 relative, NaN==NaN) with a fresh instance; continuations are explored for the first two prefixes reaching each distinct post-reset concrete state and for all prefixes of length <= 1; non-trivial = non-empty prefix".into();
